@@ -18,6 +18,7 @@ the probabilistic representation PT1.
 This file restates the theorems the property rests on (full statements; proofs are in PGProofs/).
 Generated once by harness/mkprops.py from harness/props_table.py + PGProperties/extra/C12.lean.in; committed as source.
 -/
+import PGProofs.Corollaries
 import PGProofs.DemePerm
 import PGProofs.Conservation
 import PGProofs.RewardsThm
@@ -30,6 +31,15 @@ set_option pp.fieldNotation.generalized false
 
 namespace PG.C12
 open PG
+
+/-- HEADLINE: on the code matrices, a deme with no sample and no migration into it has marginal moments exactly 0 -/
+theorem empty_deme_zero : ∀ {K : Type} [inst : Field K] [inst_1 : LinearOrder K] [inst_2 : IsStrictOrderedRing K] {k : ℕ} (L : ExpLaw K) {D : ℕ} {m : Model} {cinit : Fin D → ℕ} {ts : ℕ → Fin D → ℚ} {mig : ℕ → Fin D → Fin D → ℚ} {r : ℕ → ℚ} {fuel : ℕ → ℕ} {G : ℕ → Graph}, (∀ (e : ℕ), bfs (transit m (mkEpoch (ts e) (mig e) (r e))) (encLC cinit) (fuel e) = some (G e)) → ∀ (p : Fin D), (∀ (e : ℕ) (d : Fin D), d ≠ p → mig e d p = 0) → ∀ (α : Fin (List.length (G 0).visited) → K), (∀ (j : Fin (List.length (G 0).visited)) (c : Fin D → ℕ), (G 0).visited[j] = encLC c → c p ≠ 0 → α j = 0) → ∀ (n : ℕ) (rwd : Fin k → Reward) (a : Fin k) (rs : List Reward), rwd a = Reward.prod (Reward.deme ↑p :: rs) → ∀ (fs : List (ℕ × K)), accumVal L (fun e ↦ Matrix.map (Assembly.codeMat G e) fun q ↦ ↑q) (fun b j ↦ ↑(Reward.eval n (G 0).visited[j] (rwd b))) α fs = 0 := @PG.Corollaries.C12_lineage_code
+
+/-- generic form -/
+theorem empty_deme_zero_generic : ∀ {K : Type} [inst : Field K] [inst_1 : LinearOrder K] [inst_2 : IsStrictOrderedRing K] {ι : Type} [inst_3 : Fintype ι] [inst_4 : DecidableEq ι] {k : ℕ} (L : ExpLaw K) {D : ℕ} (dec : ι → Fin D → ℕ), Function.Injective dec → ∀ (lam : ℕ → ℕ → K) (ts : ℕ → Fin D → K) (mig : ℕ → Fin D → Fin D → K) (S : ℕ → Matrix ι ι K), (∀ (e : ℕ) (f : (Fin D → ℕ) → K) (i : ι), ∑ j, S e i j * f (dec j) = QCs (linRate lam (ts e) (mig e)) linRes f (dec i)) → ∀ (p : Fin D), (∀ (e : ℕ) (d : Fin D), d ≠ p → mig e d p = 0) → ∀ (α : ι → K), (∀ (i : ι), dec i p ≠ 0 → α i = 0) → ∀ (R : Fin k → ι → K) (a : Fin k) (g : ι → K), (∀ (i : ι), R a i = g i * Corollaries.demeFrac p (dec i)) → ∀ (fs : List (ℕ × K)), accumVal L S R α fs = 0 := @PG.Corollaries.C12_zero_deme
+
+/-- a moment with a vanishing reward slot is 0 -/
+theorem zero_slot : ∀ {K : Type} [inst : Field K] [inst_1 : LinearOrder K] [inst_2 : IsStrictOrderedRing K] {ι : Type} [inst_3 : Fintype ι] [inst_4 : DecidableEq ι] {k : ℕ} (L : ExpLaw K) (S : ℕ → Matrix ι ι K) (R : Fin k → ι → K) (a : Fin k), (∀ (i : ι), R a i = 0) → ∀ (α : ι → K) (fs : List (ℕ × K)), accumVal L S R α fs = 0 := @PG.Corollaries.accumVal_zero_slot
 
 /-- covariances of parts sum to the variance of the total -/
 theorem cov_sum : ∀ {K : Type} [inst : Field K] [inst_1 : LinearOrder K] [inst_2 : IsStrictOrderedRing K] {ι : Type} [inst_3 : Fintype ι] [inst_4 : DecidableEq ι] {J : Type} [DecidableEq J] (L : ExpLaw K) (S : ℕ → Matrix ι ι K) (s : Finset J) (r : J → ι → K) (α : ι → K) (fs : List (ℕ × K)), ∑ j ∈ s, ∑ j' ∈ s, Conservation.covVal L S (r j) (r j') α fs = Conservation.covVal L S (fun i ↦ ∑ j ∈ s, r j i) (fun i ↦ ∑ j ∈ s, r j i) α fs := @PG.Conservation.sum_cov
@@ -63,6 +73,9 @@ theorem unreachable_states_irrelevant : ∀ {K : Type} [inst : Field K] [inst_1 
 
 end PG.C12
 
+#print axioms PG.C12.empty_deme_zero
+#print axioms PG.C12.empty_deme_zero_generic
+#print axioms PG.C12.zero_slot
 #print axioms PG.C12.cov_sum
 #print axioms PG.C12.cov_bilinear
 #print axioms PG.C12.mean_transfer
